@@ -64,6 +64,7 @@ deriving Repr, Inhabited
 
 inductive Op where
   | sched (spec : RawSpec) (clock : Int)
+  | ctor (spec : RawSpec) (clock : Int)
   | exec (clock : Int) (force : Bool) (order : List Nat) (raises : List Nat) (scripts : List (Nat × List COp))
   | del (key : Nat)
   | delTags (tags : List Nat) (any : Bool)
@@ -118,6 +119,22 @@ def mapTimings (c : Call) (isList : Bool) (l : List RawTiming) : Option (List Ti
       | false, [.wk wd t] => some [.weekly wd t]
       | _, _ => none
 
+/-- `Job(job_type, [timings…], …)` created directly (handed to the constructor later): the timing
+    is always a list; `sane_timing_types` demands exactly one entry for cyclic jobs -/
+def mapTimingsDirect (c : Call) (l : List RawTiming) : Option (List Timing) :=
+  match c with
+  | .cyclic =>
+      match l with
+      | [.td x] => some [.cyclic x]
+      | _ => none
+  | .once => none
+  | c => mapTimings c true l
+
+def createJobDirect (tz : Option Int) (sp : RawSpec) (clock : Int) : Except Err Job :=
+  match mapTimingsDirect sp.call sp.timings with
+  | none => .error .schedulerError
+  | some ts => Job.create tz ts sp.start sp.stop sp.delay sp.skip sp.maxAtt clock
+
 /-- `Scheduler.<call>(…)` up to and including `BaseJob.__init__` -/
 def createJob (tz : Option Int) (sp : RawSpec) (clock : Int) : Except Err Job :=
   match sp.call, sp.isList, sp.timings with
@@ -138,9 +155,10 @@ def State.find (s : State) (k : Nat) : Option SJob := s.heap[k]?
 def State.setJob (s : State) (k : Nat) (f : Job → Job) : State :=
   { s with heap := s.heap.modify k (fun sj => { sj with job := f sj.job }) }
 
-/-- `__schedule`: create; register only when attempts remain -/
-def schedule (s : State) (sp : RawSpec) (clock : Int) : State × Res :=
-  match createJob s.tz sp clock with
+/-- `__schedule` (and, for `direct`, a job handed to `Scheduler(jobs=…)`): create; register only
+    when attempts remain -/
+def schedule (s : State) (sp : RawSpec) (clock : Int) (direct : Bool := false) : State × Res :=
+  match (if direct then createJobDirect s.tz sp clock else createJob s.tz sp clock) with
   | .error e => (s, .err e)
   | .ok j =>
       let k := s.heap.length
@@ -232,6 +250,7 @@ def execJobs (s : State) (clock : Int) (force : Bool) (order : List Nat) (raises
 
 def step (s : State) : Op → State × Out
   | .sched sp clock => let (s', r) := schedule s sp clock; (s', { res := r })
+  | .ctor sp clock => let (s', r) := schedule s sp clock true; (s', { res := r })
   | .exec clock force order raises scripts => execJobs s clock force order raises scripts
   | .del k => let (s', r) := deleteJob s k; (s', { res := r })
   | .delTags q any => let (s', r) := deleteJobs s q any; (s', { res := r })
